@@ -1,7 +1,7 @@
 """Replay of a solver counterexample against the real code (runs under
-/venv/bin/python with PYTHONPATH=/repo).  A replayer module defines
-build(model) -> dict(call=callable, env=dict of names for the clauses,
-ghost=dict) and calls replay_main(build).
+/venv/bin/python with PYTHONPATH=<the tree the VCs came from>).  A replayer
+module defines build(model, data) -> dict(call=callable, env=dict of names for
+the clauses[, custom=fn, observe=fn]) and calls replay_main(build).
 
 Exit status: 1 = the real code violates the clause with this input
 (counterexample reproduced); 0 = not reproduced; 2 = replayer error."""
@@ -17,6 +17,13 @@ class G:
     def __init__(self, **kw):
         self.__dict__.update(kw)
 
+    def __getattr__(self, name):       # ghost fields that the replay does not track
+        raise Untracked(name)
+
+
+class Untracked(Exception):
+    pass
+
 
 def implies(a, b):
     return (not a) or bool(b)
@@ -26,52 +33,149 @@ def iff(a, b):
     return bool(a) == bool(b)
 
 
-def val(x):
-    return x
-
-
-def isnone(x):
-    return x is None
-
-
-def real(x):
-    return x
-
-
 def ite(c, a, b):
     return a if c else b
 
 
-HELPERS = {'implies': implies, 'iff': iff, 'val': val, 'isnone': isnone, 'real': real, 'ite': ite}
+BASE_HELPERS = {
+    'implies': implies, 'iff': iff, 'ite': ite,
+    'val': lambda x: x, 'isnone': lambda x: x is None, 'real': lambda x: x,
+    'truthy': bool, 'allocated': lambda x: True, 'fresh': lambda x: True,
+    'is_hook': lambda x: True,
+    'has': lambda d, k: k in d, 'get': lambda d, k: d.get(k) if hasattr(d, 'get') else d[k],
+    'at': lambda l, i: l[i], 'beq': lambda a, b: bytes(a) == bytes(b),
+}
+
+
+class _Snap:
+    """pre-state copy of an object (fields only)"""
+
+
+def snapshot(o, memo):
+    """tolerant deep copy of the pre-state: containers and plain objects are
+    copied, locks / threads / callables are shared"""
+    import threading
+    if id(o) in memo:
+        return memo[id(o)]
+    if o is None or isinstance(o, (int, float, str, bytes, bool, frozenset)):
+        return o
+    if isinstance(o, threading.Event):
+        c = threading.Event()
+        if o.is_set():
+            c.set()
+        memo[id(o)] = c
+        return c
+    if isinstance(o, dict):
+        c = {}
+        memo[id(o)] = c
+        for k, v in o.items():
+            c[k] = snapshot(v, memo)
+        return c
+    if isinstance(o, (list, set, tuple)) or type(o).__name__ == 'deque':
+        c = type(o)(snapshot(x, memo) for x in o)
+        memo[id(o)] = c
+        return c
+    if isinstance(o, G):
+        c = G(**{k: snapshot(v, memo) for k, v in o.__dict__.items()})
+        memo[id(o)] = c
+        return c
+    if callable(o) or type(o).__module__ in ('_thread', 'threading'):
+        return o
+    if hasattr(o, '__dict__'):
+        c = _Snap()
+        memo[id(o)] = c
+        c.__class__ = type('Snap_' + type(o).__name__, (_Snap,), {})
+        for k, v in o.__dict__.items():
+            c.__dict__[k] = snapshot(v, memo)
+        return c
+    return o
+
+
+class Replay:
+    def __init__(self, env):
+        self.env = env
+        self.memo = {}
+        self.old_env = {k: snapshot(v, self.memo) for k, v in env.items()}
+        self.untracked = []
+
+    def old_of(self, obj):
+        return self.memo.get(id(obj), obj)
+
+    def helpers(self):
+        h = dict(BASE_HELPERS)
+
+        def only_key_changed(d, *keys):
+            od = self.old_of(d)
+            if isinstance(d, (set, frozenset)):
+                return all((k in d) == (k in od) for k in set(d) | set(od) if k not in keys)
+            return all((k in d) == (k in od) and (k not in d or d[k] is od[k] or d[k] == od[k]
+                                                  or self.old_of(d[k]) is od[k])
+                       for k in set(d) | set(od) if k not in keys)
+
+        def map_only_changed(new, old, *keys):
+            raise Untracked('ghost map')
+
+        def only_changed_at(field, *objs):
+            f = field.split('.', 1)[1]
+            for oid, o_old in list(self.memo.items()):
+                pass
+            ok = True
+            for orig_id, old in self.memo.items():
+                orig = self._objs.get(orig_id)
+                if orig is None or any(orig is o for o in objs):
+                    continue
+                if hasattr(orig, '__dict__') and f in getattr(orig, '__dict__', {}):
+                    a, b = orig.__dict__[f], getattr(old, '__dict__', {}).get(f)
+                    if not (a is b or a == b or self.old_of(a) is b):
+                        ok = False
+            return ok
+
+        def unchanged(field):
+            return only_changed_at(field)
+        h.update(only_key_changed=only_key_changed, map_only_changed=map_only_changed,
+                 only_changed_at=only_changed_at, unchanged=unchanged)
+        return h
+
+    def index_objects(self):
+        self._objs = {}
+        seen = set()
+        stack = list(self.env.values())
+        while stack:
+            o = stack.pop()
+            if id(o) in seen:
+                continue
+            seen.add(id(o))
+            self._objs[id(o)] = o
+            if isinstance(o, dict):
+                stack.extend(o.values())
+            elif isinstance(o, (list, tuple, set)):
+                stack.extend(o)
+            elif hasattr(o, '__dict__') and not callable(o):
+                stack.extend(o.__dict__.values())
+
+    def eval_clause(self, text, ns):
+        tree = ast.parse(text.strip(), mode='eval')
+        tr = _Old(self)
+        tree = ast.fix_missing_locations(tr.visit(tree))
+        ns = dict(ns)
+        ns['__oldvals'] = tr.vals
+        return eval(compile(tree, '<clause>', 'eval'), self.helpers(), ns)
 
 
 class _Old(ast.NodeTransformer):
-    def __init__(self, old_ns):
-        self.old_ns = old_ns
+    def __init__(self, rp):
+        self.rp = rp
         self.vals = []
 
     def visit_Call(self, node):
         if isinstance(node.func, ast.Name) and node.func.id == 'old':
             code = compile(ast.Expression(node.args[0]), '<old>', 'eval')
-            try:
-                v = eval(code, dict(HELPERS), self.old_ns)
-            except Exception as e:       # old value undefined
-                v = ('<undefined: %s>' % e,)
+            v = eval(code, self.rp.helpers(), self.rp.old_env)
             self.vals.append(v)
             return ast.copy_location(ast.Subscript(
                 value=ast.Name(id='__oldvals', ctx=ast.Load()),
                 slice=ast.Constant(len(self.vals) - 1), ctx=ast.Load()), node)
         return self.generic_visit(node)
-
-
-def eval_clause(text, ns, old_ns):
-    tree = ast.parse(text.strip(), mode='eval')
-    tr = _Old(old_ns)
-    tree = ast.fix_missing_locations(tr.visit(tree))
-    ns = dict(ns)
-    ns['__oldvals'] = tr.vals
-    g = dict(HELPERS)
-    return eval(compile(tree, '<clause>', 'eval'), g, ns)
 
 
 def replay_main(build):
@@ -80,7 +184,8 @@ def replay_main(build):
         model = data['model']
         setup = build(model, data)
         env = setup['env']
-        old_env = copy.deepcopy({k: v for k, v in env.items() if not callable(v) or isinstance(v, G)})
+        rp = Replay(env)
+        rp.index_objects()
         outcome, result, exc = 'return', None, None
         try:
             result = setup['call']()
@@ -91,48 +196,50 @@ def replay_main(build):
         ns['exc'] = exc
         ob = data['obligation']
         contract = data.get('contract', {})
-        for k, expr in contract.get('lets', {}).items():
-            try:
-                ns[k] = eval_clause(expr, ns, old_env)
-            except Exception as e:
-                ns[k] = None
-        verdict = None
-        kind = ob.split('.')[0]
         print('replay of %s / %s' % (data['function'], ob))
-        print('  input model: %s' % json.dumps(model, default=str))
+        print('  input model: %s' % json.dumps(model, default=str)[:1500])
         print('  outcome on real code: %s %r' % (outcome, exc if outcome == 'raise' else result))
         if 'observe' in setup:
             print('  observed: %s' % (setup['observe'](),))
-        if kind == 'post':
+        for k, expr in contract.get('lets', {}).items():
+            try:
+                ns[k] = rp.eval_clause(expr, ns)
+            except Exception:
+                ns[k] = None
+        verdict = None
+        kind = ob.split('.')[0]
+
+        def check(expr, label):
+            try:
+                okay = bool(rp.eval_clause(expr, ns))
+            except Untracked as e:
+                print('  clause %s mentions ghost state the replay does not track (%s)' % (label, e))
+                return False
+            print('  clause %s: %s -> %s' % (label, expr[:300], okay))
+            return not okay
+        if setup.get('custom') is not None:
+            verdict = bool(setup['custom'](outcome, result, exc))
+        elif kind == 'post':
             label = ob[len('post.'):]
             if outcome != 'return':
                 print('  real code raised instead of returning: not the same path')
-                verdict = 'custom' in setup and setup['custom'](outcome, result, exc)
+                verdict = False
             else:
-                expr = contract['ensures'][label]
-                okay = bool(eval_clause(expr, ns, old_env))
-                print('  clause %s: %s -> %s' % (label, expr, okay))
-                verdict = not okay
+                verdict = check(contract['ensures'][label], label)
         elif kind == 'raises':
             _, cls, label = ob.split('.', 2)
-            if outcome != 'raise' or type(exc).__name__ != cls:
+            if outcome != 'raise' or not _cls_matches(exc, cls):
                 print('  real code did not raise %s' % cls)
                 verdict = False
             else:
-                expr = contract['raises'][cls][label]
-                okay = bool(eval_clause(expr, ns, old_env))
-                print('  clause %s: %s -> %s' % (label, expr, okay))
-                verdict = not okay
-        elif 'custom' in setup and setup.get('custom_first'):
-            verdict = bool(setup['custom'](outcome, result, exc))
+                verdict = check(contract['raises'][cls][label], label)
         elif kind == 'noraise':
             cls = ob.split('.', 1)[1]
-            verdict = (outcome == 'raise' and type(exc).__name__ == cls)
+            verdict = (outcome == 'raise' and _cls_matches(exc, cls))
             print('  escaping %s reproduced: %s' % (cls, verdict))
-        elif 'custom' in setup:
-            verdict = bool(setup['custom'](outcome, result, exc))
         else:
-            print('  no evaluator for obligation kind %s' % kind)
+            print('  no evaluator for obligation kind %s (loop / call-site / frame obligations are '
+                  'internal proof steps)' % kind)
             verdict = False
         print('REPRODUCED on real code' if verdict else 'not reproduced')
         sys.exit(1 if verdict else 0)
@@ -141,3 +248,11 @@ def replay_main(build):
     except Exception:
         traceback.print_exc()
         sys.exit(2)
+
+
+def _cls_matches(exc, cls):
+    if cls == 'AnyException':
+        return isinstance(exc, Exception)
+    if cls == 'AnyBaseException':
+        return not isinstance(exc, Exception)
+    return any(k.__name__ == cls for k in type(exc).__mro__)
